@@ -23,6 +23,7 @@ func stateCommentStarted(s *Scanner, c byte) *jerr.JApiError {
 		s.step = stateCommentDouble
 		return nil
 	default:
+		s.step = stateSingleComment // a later '#' in this line is comment text
 		return stateSingleComment(s, c)
 	}
 }
@@ -33,6 +34,7 @@ func stateCommentDouble(s *Scanner, c byte) *jerr.JApiError {
 		s.step = stateCommentBlock
 		return nil
 	default:
+		s.step = stateSingleComment // a later '#' in this line is comment text
 		return stateSingleComment(s, c)
 	}
 }
